@@ -1,123 +1,25 @@
 (* C11/Outgoing.v — the outgoing path: bytes accepted by the socket vs. the
-   UTF-8 encoding of the messages taken from the queue. *)
+   UTF-8 encoding of the messages taken from the queue.  The out-buffer holds
+   bytes (repair of C11.F11), so the invariant holds on every trace. *)
 From Coq Require Import List NArith ZArith Bool Lia Arith.
 Import ListNotations.
 Require Import Base.Wire Base.PyStr C11.Model C11.AuxList.
 Open Scope N_scope.
 
-(* ---------------------------------------------------------------- *)
-(* UTF-8 facts *)
 Lemma utf8_app a b : utf8 (a ++ b) = utf8 a ++ utf8 b.
 Proof. unfold utf8. apply flat_map_app. Qed.
 
-Lemma utf8_char_ascii c : is_ascii c = true -> utf8_char c = [c].
-Proof. unfold is_ascii, utf8_char. intro H. rewrite H. reflexivity. Qed.
-
-Lemma utf8_char_len c : (1 <= length (utf8_char c))%nat.
-Proof.
-  unfold utf8_char. destruct (c <? 128); [cbn; lia|].
-  destruct (c <? 2048); [cbn; lia|]. destruct (c <? 65536); cbn; lia.
-Qed.
-
-Lemma utf8_char_len2 c : is_ascii c = false -> (2 <= length (utf8_char c))%nat.
-Proof.
-  unfold is_ascii, utf8_char. intro H. rewrite H.
-  destruct (c <? 2048); [cbn; lia|]. destruct (c <? 65536); cbn; lia.
-Qed.
-
-Lemma utf8_len_le s : (length s <= length (utf8 s))%nat.
-Proof.
-  induction s as [|c s IH]; [cbn; lia|].
-  change (utf8 (c :: s)) with (utf8_char c ++ utf8 s). rewrite app_length.
-  pose proof (utf8_char_len c). cbn [length]. lia.
-Qed.
-
-Lemma utf8_len_lt s : forallb is_ascii s = false -> (length s < length (utf8 s))%nat.
-Proof.
-  induction s as [|c s IH]; [discriminate|].
-  change (utf8 (c :: s)) with (utf8_char c ++ utf8 s). rewrite app_length. cbn [forallb length].
-  destruct (is_ascii c) eqn:E; cbn [andb]; intro H.
-  - specialize (IH H). pose proof (utf8_char_len c). lia.
-  - pose proof (utf8_char_len2 c E). pose proof (utf8_len_le s). lia.
-Qed.
-
-Lemma utf8_ascii s : forallb is_ascii s = true -> utf8 s = s.
-Proof.
-  induction s as [|c s IH]; [reflexivity|]. cbn [forallb]. intro H.
-  apply andb_true_iff in H as [Hc Hs].
-  change (utf8 (c :: s)) with (utf8_char c ++ utf8 s).
-  rewrite (utf8_char_ascii c Hc), (IH Hs). reflexivity.
-Qed.
-
 Lemma encode_ok s d : encode_str s = Ok d -> d = utf8 s.
 Proof. unfold encode_str. destruct (forallb encodable s); congruence. Qed.
+
+Lemma encode_raise s e : encode_str s = Raise e -> forallb encodable s = false.
+Proof. unfold encode_str. destruct (forallb encodable s); [discriminate|reflexivity]. Qed.
 
 Lemma sent_count_le k data : (sent_count k data <= length data)%nat.
 Proof. unfold sent_count. lia. Qed.
 
 Lemma sent_count_pos k data : 1 <= k -> (1 <= length data)%nat -> (1 <= sent_count k data)%nat.
 Proof. unfold sent_count. lia. Qed.
-
-(* ---------------------------------------------------------------- *)
-(* cutting n bytes off the encoding while dropping n characters off the text *)
-Lemma utf8_split n buf : utf8 buf = utf8 (firstn n buf) ++ utf8 (skipn n buf).
-Proof. rewrite <- utf8_app. rewrite firstn_skipn. reflexivity. Qed.
-
-Lemma cut_len n buf :
-  (n <= length (utf8 buf))%nat -> (n + length (utf8 (skipn n buf)) <= length (utf8 buf))%nat.
-Proof.
-  intro Hn. destruct (Nat.le_gt_cases n (length buf)) as [Hle|Hgt].
-  - rewrite (utf8_split n buf). rewrite app_length.
-    pose proof (utf8_len_le (firstn n buf)). rewrite firstn_length_le in H by exact Hle. lia.
-  - rewrite skipn_all2 by lia. cbn. lia.
-Qed.
-
-Lemma cut_len_strict n buf :
-  (n <= length (utf8 buf))%nat -> cut_ok n buf (utf8 buf) = false ->
-  (n + length (utf8 (skipn n buf)) < length (utf8 buf))%nat.
-Proof.
-  intros Hn Hc. unfold cut_ok in Hc. apply orb_false_iff in Hc as [Hne Hna].
-  apply Nat.eqb_neq in Hne.
-  destruct (Nat.le_gt_cases n (length buf)) as [Hle|Hgt].
-  - rewrite (utf8_split n buf). rewrite app_length.
-    pose proof (utf8_len_lt (firstn n buf) Hna). rewrite firstn_length_le in H by exact Hle. lia.
-  - rewrite skipn_all2 by lia. cbn. lia.
-Qed.
-
-Lemma cut_exact n buf :
-  (n <= length (utf8 buf))%nat -> cut_ok n buf (utf8 buf) = true ->
-  firstn n (utf8 buf) ++ utf8 (skipn n buf) = utf8 buf.
-Proof.
-  intros Hn Hc. unfold cut_ok in Hc. apply orb_true_iff in Hc as [Heq|Hasc].
-  - apply Nat.eqb_eq in Heq. rewrite firstn_all2 by lia.
-    rewrite skipn_all2 by (pose proof (utf8_len_le buf); lia). cbn. apply app_nil_r.
-  - rewrite (utf8_split n buf). rewrite (utf8_ascii _ Hasc).
-    destruct (Nat.le_gt_cases n (length buf)) as [Hle|Hgt].
-    + rewrite firstn_app. rewrite firstn_length_le by exact Hle.
-      rewrite Nat.sub_diag. cbn [firstn]. rewrite app_nil_r.
-      rewrite firstn_firstn. rewrite Nat.min_id. reflexivity.
-    + rewrite skipn_all2 by lia. cbn [utf8 flat_map]. rewrite !app_nil_r.
-      rewrite (firstn_all2 buf) by lia. rewrite firstn_all2 by lia. reflexivity.
-Qed.
-
-Lemma forallb_firstn {A} (f : A -> bool) n l : forallb f l = true -> forallb f (firstn n l) = true.
-Proof.
-  revert n. induction l as [|x l IH]; intros [|n] H; try reflexivity.
-  cbn in *. apply andb_true_iff in H as [H1 H2]. rewrite H1. cbn. apply IH. exact H2.
-Qed.
-
-Lemma forallb_skipn {A} (f : A -> bool) n l : forallb f l = true -> forallb f (skipn n l) = true.
-Proof.
-  revert n. induction l as [|x l IH]; intros [|n] H; try reflexivity; try exact H.
-  cbn in *. apply andb_true_iff in H as [H1 H2]. apply IH. exact H2.
-Qed.
-
-Lemma forallb_concat {A} (f : A -> bool) ls :
-  forallb (forallb f) ls = true -> forallb f (concat ls) = true.
-Proof.
-  induction ls as [|l ls IH]; [reflexivity|]. cbn [forallb concat]. intro H.
-  apply andb_true_iff in H as [H1 H2]. rewrite forallb_app, H1, (IH H2). reflexivity.
-Qed.
 
 (* ---------------------------------------------------------------- *)
 Section Out.
@@ -135,73 +37,75 @@ Notation handle_error := (Model.handle_error M).
 Notation try_send := (Model.try_send M).
 Notation enqueue := (Model.enqueue M).
 
-(* the invariant, and what replaces it once a short write has slipped *)
+(* the invariant: what the socket accepted, then what is still buffered, is the
+   encoding of the text that entered the buffer; that text is all the text
+   taken from the queue, except for a last batch without a UTF-8 encoding,
+   whose exception ended the driver *)
 Definition OInv (st : state) : Prop :=
-  if slipped st
-  then (length (wire st) + length (utf8 (outbuffer st)) < length (utf8 (taken st)))%nat
-  else wire st ++ utf8 (outbuffer st) = utf8 (taken st).
+  wire st ++ outbuffer st = utf8 (queued st) /\
+  (taken st = queued st \/
+   (dead st <> None /\ exists d, taken st = queued st ++ d /\ forallb encodable d = false)).
 
 Lemma oinv_same (st st' : state) :
-  wire st' = wire st -> outbuffer st' = outbuffer st -> taken st' = taken st -> slipped st' = slipped st ->
+  wire st' = wire st -> outbuffer st' = outbuffer st -> taken st' = taken st -> queued st' = queued st ->
+  (dead st <> None -> dead st' <> None) ->
   OInv st -> OInv st'.
-Proof. unfold OInv. intros -> -> -> ->. auto. Qed.
+Proof.
+  unfold OInv. intros -> -> -> -> Hd [H1 H2]. split; [exact H1|].
+  destruct H2 as [H2|[H2 H3]]; [left; exact H2|right; split; auto].
+Qed.
 
 Lemma handle_error_out e (st : state) :
   wire (handle_error e st) = wire st /\ outbuffer (handle_error e st) = outbuffer st /\
-  taken (handle_error e st) = taken st /\ slipped (handle_error e st) = slipped st.
+  taken (handle_error e st) = taken st /\ queued (handle_error e st) = queued st /\
+  dead (handle_error e st) = dead st.
 Proof.
   unfold Model.handle_error. destruct e as [c|]; [|cbn; auto].
   destruct (negb (c =? gen.T11.EAGAIN) || (gen.T11.EAGAIN_MAX <? eagains st)); cbn; auto.
 Qed.
 
-Lemma oinv_enqueue msgs st : OInv st -> OInv (enqueue msgs st).
+Lemma oinv_enqueue msgs st : dead st = None -> OInv st -> OInv (enqueue msgs st).
 Proof.
-  unfold OInv. cbn [Model.enqueue slipped wire outbuffer taken].
-  rewrite !utf8_app. destruct (slipped st); intro H.
-  - rewrite !app_length. lia.
-  - rewrite app_assoc, H. reflexivity.
+  intros Hd [H1 H2]. destruct H2 as [H2|[H2 _]]; [|congruence].
+  unfold Model.enqueue. destruct (encode_str (concat msgs)) as [data|e] eqn:Ee.
+  - apply encode_ok in Ee. subst data. split; cbn [wire outbuffer queued taken].
+    + rewrite utf8_app, app_assoc, H1. reflexivity.
+    + left. rewrite H2. reflexivity.
+  - apply encode_raise in Ee. split; cbn [wire outbuffer queued taken dead]; [exact H1|].
+    right. split; [discriminate|]. exists (concat msgs). rewrite H2. auto.
 Qed.
 
-Lemma oinv_flush s st : OInv st -> OInv (try_send s st).
+Lemma oinv_try_send s st : OInv st -> OInv (try_send s st).
 Proof.
   intro H. unfold Model.try_send. destruct (outbuffer st) as [|c0 ob'] eqn:Eo; [exact H|].
-  destruct (encode_str (c0 :: ob')) as [data|e] eqn:Ee.
-  2:{ eapply oinv_same; [..|exact H]; reflexivity. }
-  apply encode_ok in Ee. rewrite <- Eo in *. clear Eo c0 ob'.
+  rewrite <- Eo in *. clear Eo c0 ob'.
   destruct s as [k|c].
-  2:{ destruct (handle_error_out (Some c) st) as (A & B & C & D). eapply oinv_same; eauto. }
-  set (n := sent_count k data).
-  assert (Hn : (n <= length (utf8 (outbuffer st)))%nat) by (subst data; apply sent_count_le).
-  unfold OInv in *. cbn [slipped wire outbuffer taken]. subst data.
-  destruct (slipped st); cbn [orb].
-  - rewrite app_length, firstn_length_le by exact Hn.
-    pose proof (cut_len n (outbuffer st) Hn). lia.
-  - destruct (cut_ok n (outbuffer st) (utf8 (outbuffer st))) eqn:Ec; cbn [negb].
-    + rewrite <- app_assoc. rewrite (cut_exact n _ Hn Ec). exact H.
-    + rewrite app_length, firstn_length_le by exact Hn.
-      pose proof (cut_len_strict n (outbuffer st) Hn Ec).
-      rewrite <- H. rewrite app_length. lia.
+  - destruct H as [H1 H2]. split; cbn [wire outbuffer queued taken dead]; [|exact H2].
+    rewrite <- app_assoc, firstn_skipn. exact H1.
+  - destruct (handle_error_out (Some c) st) as (A & B & C & D & E).
+    eapply oinv_same; eauto; try (rewrite E; auto).
 Qed.
 
-Lemma oinv_send msgs s st : OInv st -> OInv (send_if_msgs msgs s st).
+Lemma oinv_send msgs s st : dead st = None -> OInv st -> OInv (send_if_msgs msgs s st).
 Proof.
-  intro H. unfold Model.send_if_msgs. destruct (connected st); cbn [negb]; [|exact H].
-  apply oinv_flush. apply oinv_enqueue. exact H.
+  intros Hd H. unfold Model.send_if_msgs. destruct (connected st); cbn [negb]; [|exact H].
+  pose proof (oinv_enqueue msgs st Hd H) as H1.
+  destruct (dead (enqueue msgs st)); [exact H1|]. apply oinv_try_send. exact H1.
 Qed.
 
 Lemma oinv_step st ev : OInv st -> OInv (step st ev).
 Proof.
-  intro H. unfold Model.step. destruct (dead st); [exact H|].
-  destruct ev as [msgs s|r msgs s]; [apply oinv_send; exact H|].
+  intro H. unfold Model.step. destruct (dead st) eqn:Hd; [exact H|].
+  destruct ev as [msgs s|r msgs s]; [apply oinv_send; assumption|].
   destruct r as [b| |c]; cbn [Model.read].
   - destruct b as [|b0 b'].
-    + destruct (handle_error_out None st) as (A & B & C & D). eapply oinv_same; eauto.
+    + destruct (handle_error_out None st) as (A & B & C & D & E). eapply oinv_same; eauto; try congruence.
     + destruct (Model.feed_lines M decode ws parse
                   (removelast (split_char sep (inbuffer st ++ b0 :: b')))) as [d [x|]].
-      * eapply oinv_same; [..|exact H]; reflexivity.
-      * apply oinv_send. eapply oinv_same; [..|exact H]; reflexivity.
-  - apply oinv_send; exact H.
-  - destruct (handle_error_out (Some c) st) as (A & B & C & D). eapply oinv_same; eauto.
+      * eapply oinv_same; [..|exact H]; try reflexivity. congruence.
+      * apply oinv_send; [exact Hd|]. eapply oinv_same; [..|exact H]; try reflexivity. auto.
+  - apply oinv_send; assumption.
+  - destruct (handle_error_out (Some c) st) as (A & B & C & D & E). eapply oinv_same; eauto; try congruence.
 Qed.
 
 Lemma oinv_run tr : forall st, OInv st -> OInv (run_trace st tr).
@@ -211,167 +115,29 @@ Proof.
 Qed.
 
 Lemma oinv_init : OInv (init M).
-Proof. reflexivity. Qed.
+Proof. split; [reflexivity|left; reflexivity]. Qed.
 
-(* On the domain: what the socket has accepted, followed by the encoding of
-   what is still buffered, is exactly the encoding of the messages taken so
-   far (in order, each once) -- for every trace. *)
-Theorem out_stream_on_domain tr :
-  out_dom decode ws parse sep tr = true ->
+(* For EVERY trace: the bytes the socket has accepted, followed by the bytes
+   still buffered, are exactly the UTF-8 encoding of the text of the messages
+   that entered the buffer (in order, each once); that text is everything taken
+   from the queue, unless a last batch had no UTF-8 encoding (a lone
+   surrogate), in which case its exception has ended the driver. *)
+Theorem out_stream tr :
   let st := run_trace (init M) tr in
-  wire st ++ utf8 (outbuffer st) = utf8 (taken st).
-Proof.
-  unfold out_dom. intro Hd. apply negb_true_iff in Hd. cbn zeta.
-  pose proof (oinv_run tr _ oinv_init) as H. unfold OInv in H. rewrite Hd in H. exact H.
-Qed.
+  wire st ++ outbuffer st = utf8 (queued st) /\
+  (taken st = queued st \/
+   (dead st <> None /\ exists d, taken st = queued st ++ d /\ forallb encodable d = false)).
+Proof. cbn zeta. exact (oinv_run tr _ oinv_init). Qed.
 
-(* The domain is exact: outside it bytes are missing for good. *)
-Theorem out_stream_off_domain tr :
-  out_dom decode ws parse sep tr = false ->
+(* the clause as the property states it, for text that has a UTF-8 encoding *)
+Theorem out_stream_encodable tr :
   let st := run_trace (init M) tr in
-  (length (wire st) + length (utf8 (outbuffer st)) < length (utf8 (taken st)))%nat /\
-  wire st ++ utf8 (outbuffer st) <> utf8 (taken st).
+  forallb encodable (taken st) = true ->
+  wire st ++ outbuffer st = utf8 (taken st).
 Proof.
-  unfold out_dom. intro Hd. apply negb_false_iff in Hd. cbn zeta.
-  pose proof (oinv_run tr _ oinv_init) as H. unfold OInv in H. rewrite Hd in H.
-  split; [exact H|]. intro E. apply (f_equal (@length N)) in E. rewrite app_length in E. lia.
-Qed.
-
-(* ---------------------------------------------------------------- *)
-(* all-ASCII traffic is inside the domain, whatever send() returns *)
-Definition ev_msgs (ev : event) : list str :=
-  match ev with EvSend msgs _ => msgs | EvRead _ msgs _ => msgs end.
-Definition ascii_trace (tr : list event) : bool :=
-  forallb (fun ev => forallb (forallb is_ascii) (ev_msgs ev)) tr.
-
-Definition AInv (st : state) : Prop := forallb is_ascii (outbuffer st) = true /\ slipped st = false.
-
-Lemma ainv_same (st st' : state) :
-  outbuffer st' = outbuffer st -> slipped st' = slipped st -> AInv st -> AInv st'.
-Proof. unfold AInv. intros -> ->. auto. Qed.
-
-Lemma ainv_send msgs s st :
-  forallb (forallb is_ascii) msgs = true -> AInv st -> AInv (send_if_msgs msgs s st).
-Proof.
-  intros Hm [Ha Hs]. unfold Model.send_if_msgs. destruct (connected st); cbn [negb]; [|split; assumption].
-  assert (H1 : AInv (enqueue msgs st)).
-  { split; [|exact Hs]. cbn. rewrite forallb_app, Ha. cbn. apply forallb_concat. exact Hm. }
-  revert H1. generalize (enqueue msgs st). intros st1 [Ha1 Hs1].
-  unfold Model.try_send. destruct (outbuffer st1) as [|c0 ob'] eqn:Eo; [split; [rewrite Eo; reflexivity|assumption]|].
-  destruct (encode_str (c0 :: ob')) as [data|e]; [|split; cbn; congruence].
-  rewrite <- Eo in *.
-  destruct s as [k|c].
-  - split; cbn.
-    + apply forallb_skipn. exact Ha1.
-    + rewrite Hs1. unfold cut_ok. rewrite (forallb_firstn _ _ _ Ha1). rewrite orb_true_r. reflexivity.
-  - destruct (handle_error_out (Some c) st1) as (_ & B & _ & D). eapply ainv_same; eauto. split; assumption.
-Qed.
-
-Lemma ainv_step st ev :
-  forallb (forallb is_ascii) (ev_msgs ev) = true -> AInv st -> AInv (step st ev).
-Proof.
-  intros Hm H. unfold Model.step. destruct (dead st); [exact H|].
-  destruct ev as [msgs s|r msgs s]; cbn [ev_msgs] in Hm; [apply ainv_send; assumption|].
-  destruct r as [b| |c]; cbn [Model.read].
-  - destruct b as [|b0 b'].
-    + destruct (handle_error_out None st) as (_ & B & _ & D). eapply ainv_same; eauto.
-    + destruct (Model.feed_lines M decode ws parse
-                  (removelast (split_char sep (inbuffer st ++ b0 :: b')))) as [d [x|]].
-      * eapply ainv_same; [..|exact H]; reflexivity.
-      * apply ainv_send; [assumption|]. eapply ainv_same; [..|exact H]; reflexivity.
-  - apply ainv_send; assumption.
-  - destruct (handle_error_out (Some c) st) as (_ & B & _ & D). eapply ainv_same; eauto.
-Qed.
-
-Theorem out_ascii_in_domain tr :
-  ascii_trace tr = true -> out_dom decode ws parse sep tr = true.
-Proof.
-  intro Ht. unfold out_dom. apply negb_true_iff.
-  assert (H : forall st, AInv st -> AInv (run_trace st tr)).
-  { induction tr as [|ev tr IH]; intros st Hst; [exact Hst|].
-    cbn [ascii_trace forallb] in Ht. apply andb_true_iff in Ht as [He Ht].
-    cbn [Model.run_trace fold_left]. apply (IH Ht). apply ainv_step; assumption. }
-  apply (H (init M)). split; reflexivity.
-Qed.
-
-(* ---------------------------------------------------------------- *)
-(* complete writes are inside the domain too, whatever the text: if every
-   send() accepts at least as many bytes as the whole trace ever queues *)
-Definition ev_sres (ev : event) : sres :=
-  match ev with EvSend _ s => s | EvRead _ _ s => s end.
-Definition trace_bytes (tr : list event) : nat :=
-  fold_right (fun ev acc => (length (utf8 (concat (ev_msgs ev))) + acc)%nat) 0%nat tr.
-Definition sres_full (B : nat) (s : sres) : bool :=
-  match s with Sent k => N.of_nat B <=? k | SErr _ => true end.
-Definition full_sends (B : nat) (tr : list event) : bool :=
-  forallb (fun ev => sres_full B (ev_sres ev)) tr.
-
-Lemma send_noslip msgs s st B :
-  OInv st -> slipped st = false ->
-  (length (utf8 (taken st)) + length (utf8 (concat msgs)) <= B)%nat ->
-  sres_full B s = true ->
-  slipped (send_if_msgs msgs s st) = false /\ (length (utf8 (taken (send_if_msgs msgs s st))) <= length (utf8 (taken st)) + length (utf8 (concat msgs)))%nat.
-Proof.
-  intros Ho Hs Hb Hf. unfold Model.send_if_msgs. destruct (connected st); cbn [negb]; [|split; [exact Hs|lia]].
-  pose proof (oinv_enqueue msgs st Ho) as Ho1.
-  assert (Hs1 : slipped (enqueue msgs st) = false) by exact Hs.
-  assert (Ht1 : taken (enqueue msgs st) = taken st ++ concat msgs) by reflexivity.
-  revert Ho1 Hs1 Ht1. generalize (enqueue msgs st). intros st1 Ho1 Hs1 Ht1.
-  assert (Hlen : (length (utf8 (taken st1)) = length (utf8 (taken st)) + length (utf8 (concat msgs)))%nat)
-    by (rewrite Ht1, utf8_app, app_length; reflexivity).
-  assert (Hob : (length (utf8 (outbuffer st1)) <= B)%nat).
-  { unfold OInv in Ho1. rewrite Hs1 in Ho1. apply (f_equal (@length N)) in Ho1.
-    rewrite app_length in Ho1. lia. }
-  unfold Model.try_send. destruct (outbuffer st1) as [|c0 ob'] eqn:Eo; [split; [exact Hs1|lia]|].
-  destruct (encode_str (c0 :: ob')) as [data|e] eqn:Ee; [|split; [exact Hs1|cbn [set_dead taken]; lia]].
-  apply encode_ok in Ee. rewrite <- Eo in *. subst data.
-  destruct s as [k|c].
-  - cbn [slipped taken]. split; [|lia]. rewrite Hs1. cbn [orb]. apply negb_false_iff.
-    unfold cut_ok. apply orb_true_iff. left. apply Nat.eqb_eq.
-    unfold sent_count. cbn [sres_full] in Hf. apply N.leb_le in Hf. lia.
-  - destruct (handle_error_out (Some c) st1) as (_ & _ & C & D). rewrite C, D. split; [exact Hs1|lia].
-Qed.
-
-Lemma step_noslip st ev B :
-  OInv st -> slipped st = false ->
-  (length (utf8 (taken st)) + length (utf8 (concat (ev_msgs ev))) <= B)%nat ->
-  sres_full B (ev_sres ev) = true ->
-  slipped (step st ev) = false /\ (length (utf8 (taken (step st ev))) <= length (utf8 (taken st)) + length (utf8 (concat (ev_msgs ev))))%nat.
-Proof.
-  intros Ho Hs Hb Hf. unfold Model.step. destruct (dead st); [split; [exact Hs|lia]|].
-  destruct ev as [msgs s|r msgs s]; cbn [ev_msgs ev_sres] in *; [apply (send_noslip msgs s st B); assumption|].
-  destruct r as [b| |c]; cbn [Model.read].
-  - destruct b as [|b0 b'].
-    + destruct (handle_error_out None st) as (_ & _ & C & D). rewrite C, D. split; [exact Hs|lia].
-    + destruct (Model.feed_lines M decode ws parse
-                  (removelast (split_char sep (inbuffer st ++ b0 :: b')))) as [d [x|]].
-      * cbn [set_dead slipped taken]. split; [exact Hs|lia].
-      * match goal with |- context [send_if_msgs msgs s ?st1] =>
-          pose proof (send_noslip msgs s st1 B) as Hx end.
-        cbn [slipped taken] in Hx. apply Hx; assumption.
-  - apply (send_noslip msgs s st B); assumption.
-  - destruct (handle_error_out (Some c) st) as (_ & _ & C & D). rewrite C, D. split; [exact Hs|lia].
-Qed.
-
-Lemma run_noslip tr : forall st B,
-  OInv st -> slipped st = false ->
-  (length (utf8 (taken st)) + trace_bytes tr <= B)%nat ->
-  full_sends B tr = true ->
-  slipped (run_trace st tr) = false.
-Proof.
-  induction tr as [|ev tr IH]; intros st B Ho Hs Hb Hf; [exact Hs|].
-  cbn [trace_bytes fold_right] in Hb. fold (trace_bytes tr) in Hb.
-  cbn [full_sends forallb] in Hf. apply andb_true_iff in Hf as [Hf1 Hf2].
-  cbn [Model.run_trace fold_left].
-  destruct (step_noslip st ev B Ho Hs) as [A1 A2]; [lia|exact Hf1|].
-  apply (IH _ B); [apply oinv_step; exact Ho|exact A1|lia|exact Hf2].
-Qed.
-
-Theorem out_full_in_domain tr :
-  full_sends (trace_bytes tr) tr = true -> out_dom decode ws parse sep tr = true.
-Proof.
-  intro Hf. unfold out_dom. apply negb_true_iff.
-  apply (run_noslip tr (init M) (trace_bytes tr)); [exact oinv_init|reflexivity|cbn; lia|exact Hf].
+  cbn zeta. destruct (out_stream tr) as [H1 [H2|(_ & d & H2 & H3)]]; cbn zeta in *; intro He.
+  - rewrite H2. exact H1.
+  - rewrite H2, forallb_app in He. apply andb_true_iff in He as [_ He]. congruence.
 Qed.
 
 (* ---------------------------------------------------------------- *)
@@ -379,57 +145,61 @@ Qed.
    empty the buffer after at most |outbuffer| calls; nothing else moves *)
 Theorem out_progress ks : forall st,
   dead st = None -> connected st = true ->
-  forallb encodable (outbuffer st) = true ->
   Forall (fun k => 1 <= k) ks ->
   (length (outbuffer st) <= length ks)%nat ->
   let st' := run_trace st (drains ks) in
-  outbuffer st' = [] /\ dead st' = None /\ connected st' = true /\ taken st' = taken st.
+  outbuffer st' = [] /\ dead st' = None /\ connected st' = true /\ taken st' = taken st /\
+  wire st' = wire st ++ outbuffer st.
 Proof.
-  induction ks as [|k ks IH]; intros st Hd Hc He Hk Hl.
-  - cbn in *. destruct (outbuffer st); [auto|cbn in Hl; lia].
+  induction ks as [|k ks IH]; intros st Hd Hc Hk Hl.
+  - cbn in *. destruct (outbuffer st); [rewrite app_nil_r; auto|cbn in Hl; lia].
   - inversion Hk as [|? ? Hk1 Hks]; subst.
     cbn [drains map Model.run_trace fold_left]. fold (drains ks).
     set (st1 := step st (EvSend [] (Sent k))).
-    assert (H1 : dead st1 = None /\ connected st1 = true /\ forallb encodable (outbuffer st1) = true /\
-                 (length (outbuffer st1) <= length ks)%nat /\ taken st1 = taken st).
-    { unfold st1, Model.step. rewrite Hd. unfold Model.send_if_msgs. rewrite Hc. cbn [negb].
-      unfold Model.try_send. cbn [Model.enqueue outbuffer concat]. rewrite !app_nil_r.
-      destruct (outbuffer st) as [|c0 ob'] eqn:Eo.
-      - cbn. rewrite Eo. cbn. repeat split; auto; try apply app_nil_r; try lia.
-      - unfold encode_str. rewrite He.
-        cbn [connected dead outbuffer taken]. rewrite <- Eo in *.
-        repeat split; auto; try apply app_nil_r.
-        + apply forallb_skipn. exact He.
+    assert (H1 : dead st1 = None /\ connected st1 = true /\
+                 (length (outbuffer st1) <= length ks)%nat /\ taken st1 = taken st /\
+                 wire st1 ++ outbuffer st1 = wire st ++ outbuffer st).
+    { unfold st1. clear st1 IH. destruct st as [c d e ib ob w t q r dl].
+      cbn [dead connected outbuffer taken wire] in *. subst c d.
+      unfold Model.step, Model.send_if_msgs, Model.enqueue.
+      cbn [dead connected negb concat encode_str forallb utf8 flat_map outbuffer eagains wire taken inbuffer
+           queued received delivered].
+      unfold Model.try_send.
+      cbn [dead connected outbuffer eagains wire taken inbuffer queued received delivered].
+      rewrite !app_nil_r. destruct ob as [|c0 ob'];
+        cbn [dead connected outbuffer eagains wire taken inbuffer queued received delivered].
+      - repeat split; auto. cbn. lia.
+      - repeat split; auto.
         + rewrite skipn_length.
-          assert (1 <= sent_count k (utf8 (outbuffer st)))%nat.
-          { apply sent_count_pos; [exact Hk1|]. pose proof (utf8_len_le (outbuffer st)).
-            rewrite Eo in *. cbn [length] in *. lia. }
-          cbn [length] in Hl. rewrite Eo in *. cbn [length] in *. lia. }
-    destruct H1 as (A & B & C & D & E).
-    destruct (IH st1 A B C Hks D) as (F & G & H & I).
-    unfold Model.run_trace in *. cbn zeta in *. repeat split; auto; congruence.
+          assert (1 <= sent_count k (c0 :: ob'))%nat by (apply sent_count_pos; [exact Hk1|cbn [length]; lia]).
+          cbn [length] in *. lia.
+        + rewrite <- app_assoc, firstn_skipn. reflexivity. }
+    destruct H1 as (A & B & D & E & F).
+    destruct (IH st1 A B Hks D) as (G & H & I & J & K).
+    unfold Model.run_trace in *. cbn zeta in *. repeat split; auto; try congruence.
 Qed.
 
 (* EAGAIN accounting of _handleSocketError: a send() that raises EAGAIN moves no
    byte and loses no text; the connection survives it exactly while the count
    of consecutive EAGAINs has not passed the limit *)
 Theorem eagain_step st :
-  dead st = None -> connected st = true ->
-  outbuffer st <> [] -> forallb encodable (outbuffer st) = true ->
+  dead st = None -> connected st = true -> outbuffer st <> [] ->
   let st' := step st (EvSend [] (SErr gen.T11.EAGAIN)) in
   outbuffer st' = outbuffer st /\ wire st' = wire st /\ taken st' = taken st /\ dead st' = None /\
   connected st' = (eagains st <=? gen.T11.EAGAIN_MAX) /\
   (eagains st <= gen.T11.EAGAIN_MAX -> eagains st' = eagains st + 1).
 Proof.
-  destruct st as [c d e ib ob w t sl r dl].
-  cbn [dead connected outbuffer eagains wire taken]. intros -> -> Hne He.
-  unfold Model.step, Model.send_if_msgs, Model.try_send, Model.enqueue, Model.handle_error,
-    Model.set_conn, Model.set_eagains.
-  cbn [dead connected outbuffer eagains wire taken inbuffer slipped received delivered negb concat].
+  destruct st as [c d e ib ob w t q r dl].
+  cbn [dead connected outbuffer eagains wire taken]. intros -> -> Hne.
+  unfold Model.step, Model.send_if_msgs, Model.enqueue.
+  cbn [dead connected negb concat encode_str forallb utf8 flat_map outbuffer eagains wire taken inbuffer queued
+       received delivered].
+  unfold Model.try_send, Model.handle_error, Model.set_conn, Model.set_eagains.
+  cbn [dead connected outbuffer eagains wire taken inbuffer queued received delivered].
   rewrite !app_nil_r. destruct ob as [|c0 ob']; [congruence|].
-  unfold encode_str. rewrite He. rewrite N.eqb_refl. cbn [negb orb].
+  rewrite N.eqb_refl. cbn [negb orb].
   destruct (gen.T11.EAGAIN_MAX <? e) eqn:El;
-    cbn [dead connected outbuffer eagains wire taken inbuffer slipped received delivered].
+    cbn [dead connected outbuffer eagains wire taken inbuffer queued received delivered].
   - apply N.ltb_lt in El. repeat split; auto.
     + symmetry. apply N.leb_gt. exact El.
     + intro. lia.
@@ -440,12 +210,12 @@ Qed.
 End Out.
 
 (* ---------------------------------------------------------------- *)
-(* the witness of finding F11: 'héllo', send() accepts 3 of its 6 bytes *)
+(* the former witness of finding C11.F11: 'héllo', send() accepts 3 of its 6
+   bytes, then everything: the socket now receives all 6 bytes *)
 Definition f11_trace : list event :=
   [EvSend [[104; 233; 108; 108; 111]] (Sent 3); EvSend [] (Sent 1000)].
 
-Lemma f11_refutes :
-  out_dom utf8_decode_replace gen.T11.WHITESPACE (parse_tbl []) gen.T11.LINE_SEP f11_trace = false /\
+Lemma f11_repaired :
   let st := crun [] (init str) f11_trace in
-  outbuffer st = [] /\ wire st = utf8 [104; 233; 108; 111] /\ wire st <> utf8 (taken st).
-Proof. vm_compute. repeat split. discriminate. Qed.
+  outbuffer st = [] /\ wire st = utf8 [104; 233; 108; 108; 111] /\ wire st = utf8 (taken st).
+Proof. vm_compute. repeat split. Qed.
